@@ -234,16 +234,43 @@ let run_txt (a : string array) : string * string =
     | None -> "none" in
   (canon, "")
 
-let parse_back_req cfg (g : bytes) : string =
-  match req_parse uri_parse cfg req_init g with
-  | (st, Complete c) -> Printf.sprintf "C%d;%s" (int_of_nat c) (req_fields st)
-  | (st, Incomplete c) -> Printf.sprintf "I%d;%s" (int_of_nat c) (req_fields st)
-  | (_, Reject e) -> "R:" ^ err_cat e
-let parse_back_resp (g : bytes) : string =
-  match resp_parse resp_init g with
-  | (st, Complete c) -> Printf.sprintf "C%d;%s" (int_of_nat c) (resp_fields st)
-  | (st, Incomplete c) -> Printf.sprintf "I%d;%s" (int_of_nat c) (resp_fields st)
-  | (_, Reject e) -> "R:" ^ err_cat e
+(* how generated bytes are presented when parsed back: whole, cut at the CR|LF of the start line
+   ("cr"), or cut at byte k (modulo the length) *)
+let split_for (g : bytes) (spec : string option) : bytes list =
+  let cut p =
+    let rec take n l = if n = 0 then [] else (match l with [] -> [] | x :: t -> x :: take (n - 1) t) in
+    let rec drop n l = if n = 0 then l else (match l with [] -> [] | _ :: t -> drop (n - 1) t) in
+    [take p g; drop p g] in
+  match spec with
+  | None | Some "-" | Some "" -> [g]
+  | Some "cr" ->
+    let rec pos i = function [] -> None | x :: t -> if int_of_n x = 13 then Some i else pos (i + 1) t in
+    (match pos 0 g with Some i -> cut (i + 1) | None -> [g])
+  | Some k -> cut ((try int_of_string k with _ -> 0) mod (List.length g + 1))
+
+let arg_opt (a : string array) i = if Array.length a > i then Some a.(i) else None
+
+let feed_back_req cfg g spec =
+  let (_, r) = feed_trace (req_parse uri_parse cfg) req_init [] (split_for g spec) O in
+  match r with
+  | Done (st, tot, _) -> Ok ("C", int_of_nat tot, st)
+  | NeedMore (st, tot, _) -> Ok ("I", int_of_nat tot, st)
+  | Rejected e -> Error ("R:" ^ err_cat e)
+let feed_back_resp g spec =
+  let (_, r) = feed_trace resp_parse resp_init [] (split_for g spec) O in
+  match r with
+  | Done (st, tot, _) -> Ok ("C", int_of_nat tot, st)
+  | NeedMore (st, tot, _) -> Ok ("I", int_of_nat tot, st)
+  | Rejected e -> Error ("R:" ^ err_cat e)
+
+let parse_back_req cfg (g : bytes) spec : string =
+  match feed_back_req cfg g spec with
+  | Ok (tag, c, st) -> Printf.sprintf "%s%d;%s" tag c (req_fields st)
+  | Error v -> v
+let parse_back_resp (g : bytes) spec : string =
+  match feed_back_resp g spec with
+  | Ok (tag, c, st) -> Printf.sprintf "%s%d;%s" tag c (resp_fields st)
+  | Error v -> v
 
 let gen_of_state cfg (st : uri req_state) : bytes option =
   let t = match st.r_target with Some u -> u | None -> Lazy.force uri_default in
@@ -259,14 +286,11 @@ let run_genreq (a : string array) : string * string =
     (match gen_of_state cfg st0 with
      | None -> ("generr:needs-fold", "")
      | Some g ->
-       let back = match req_parse uri_parse cfg req_init g with
-         | (st, Complete c) ->
+       let back = match feed_back_req cfg g (arg_opt a 7) with
+         | Ok (tag, c, st) ->
            let regen = match gen_of_state cfg st with Some g2 -> hex g2 | None -> "generr:needs-fold" in
-           Printf.sprintf "C%d;%s;regen=%s" (int_of_nat c) (req_fields st) regen
-         | (st, Incomplete c) ->
-           let regen = match gen_of_state cfg st with Some g2 -> hex g2 | None -> "generr:needs-fold" in
-           Printf.sprintf "I%d;%s;regen=%s" (int_of_nat c) (req_fields st) regen
-         | (_, Reject e) -> "R:" ^ err_cat e in
+           Printf.sprintf "%s%d;%s;regen=%s" tag c (req_fields st) regen
+         | Error v -> v in
        (Printf.sprintf "gen=%s;orig=%s;back=%s" (hex g) (req_fields st0) back, ""))
 
 let run_genresp (a : string array) : string * string =
@@ -274,14 +298,11 @@ let run_genresp (a : string array) : string * string =
   let st0 = { s_phase = SStatusLine; s_code = code; s_reason = unhex a.(1);
               s_headers = parse_headers ~cp:false a.(2); s_body = unhex a.(3); s_trailer = [] } in
   let g = resp_generate st0.s_code st0.s_reason st0.s_headers st0.s_body in
-  let back = match resp_parse resp_init g with
-    | (st, Complete c) ->
-      Printf.sprintf "C%d;%s;regen=%s" (int_of_nat c) (resp_fields st)
+  let back = match feed_back_resp g (arg_opt a 4) with
+    | Ok (tag, c, st) ->
+      Printf.sprintf "%s%d;%s;regen=%s" tag c (resp_fields st)
         (hex (resp_generate st.s_code st.s_reason st.s_headers st.s_body))
-    | (st, Incomplete c) ->
-      Printf.sprintf "I%d;%s;regen=%s" (int_of_nat c) (resp_fields st)
-        (hex (resp_generate st.s_code st.s_reason st.s_headers st.s_body))
-    | (_, Reject e) -> "R:" ^ err_cat e in
+    | Error v -> v in
   (Printf.sprintf "gen=%s;orig=%s;back=%s" (hex g) (resp_fields st0) back, "")
 
 let run_rtreq (a : string array) : string * string =
@@ -289,7 +310,7 @@ let run_rtreq (a : string array) : string * string =
   match req_parse uri_parse cfg req_init (unhex a.(3)) with
   | (st, Complete _) ->
     (match gen_of_state cfg st with
-     | Some g -> (Printf.sprintf "first=%s;gen=%s;back=%s" (req_fields st) (hex g) (parse_back_req cfg g), "")
+     | Some g -> (Printf.sprintf "first=%s;gen=%s;back=%s" (req_fields st) (hex g) (parse_back_req cfg g (arg_opt a 4)), "")
      | None -> (Printf.sprintf "first=%s;generr:needs-fold" (req_fields st), ""))
   | (_, Incomplete _) -> ("notcomplete:I", "")
   | (_, Reject e) -> ("notcomplete:R:" ^ err_cat e, "")
@@ -298,7 +319,7 @@ let run_rtresp (a : string array) : string * string =
   match resp_parse resp_init (unhex a.(0)) with
   | (st, Complete _) ->
     let g = resp_generate st.s_code st.s_reason st.s_headers st.s_body in
-    (Printf.sprintf "first=%s;gen=%s;back=%s" (resp_fields st) (hex g) (parse_back_resp g), "")
+    (Printf.sprintf "first=%s;gen=%s;back=%s" (resp_fields st) (hex g) (parse_back_resp g (arg_opt a 1)), "")
   | (_, Incomplete _) -> ("notcomplete:I", "")
   | (_, Reject e) -> ("notcomplete:R:" ^ err_cat e, "")
 
@@ -332,6 +353,36 @@ let run_piperesp (a : string array) : string * string =
        | (_, Reject e) -> List.rev (("R:" ^ err_cat e) :: acc)) in
   (String.concat "|" (go (unhex a.(0)) 8 []), "")
 
+(* one parser value fed two messages in succession (the second only if the first completed) *)
+let run_reuse_resp (a : string array) : string * string =
+  let rec go st k args acc =
+    match args with
+    | [] -> List.rev acc
+    | arg :: rest ->
+      let (tr, r) = feed_trace resp_parse st [] (deliveries arg) O in
+      (match r with
+       | Rejected e -> List.rev (Printf.sprintf "m%d:tr=%s;v=R:%s" k (show_trace tr) (err_cat e) :: acc)
+       | NeedMore (st', tot, _) ->
+         List.rev (Printf.sprintf "m%d:tr=%s;v=N;tot=%d;%s" k (show_trace tr) (int_of_nat tot) (resp_fields st') :: acc)
+       | Done (st', tot, _) ->
+         go st' (k + 1) rest (Printf.sprintf "m%d:tr=%s;v=C;tot=%d;%s" k (show_trace tr) (int_of_nat tot) (resp_fields st') :: acc)) in
+  (String.concat "|" (go resp_init 0 [a.(0); a.(1)] []), "")
+
+let run_reuse_req (a : string array) : string * string =
+  let cfg = cfg_of a.(0) a.(1) a.(2) in
+  let rec go st k args acc =
+    match args with
+    | [] -> List.rev acc
+    | arg :: rest ->
+      let (tr, r) = feed_trace (req_parse uri_parse cfg) st [] (deliveries arg) O in
+      (match r with
+       | Rejected e -> List.rev (Printf.sprintf "m%d:tr=%s;v=R:%s" k (show_trace tr) (err_cat e) :: acc)
+       | NeedMore (st', tot, _) ->
+         List.rev (Printf.sprintf "m%d:tr=%s;v=N;tot=%d;%s" k (show_trace tr) (int_of_nat tot) (req_fields st') :: acc)
+       | Done (st', tot, _) ->
+         go st' (k + 1) rest (Printf.sprintf "m%d:tr=%s;v=C;tot=%d;%s" k (show_trace tr) (int_of_nat tot) (req_fields st') :: acc)) in
+  (String.concat "|" (go req_init 0 [a.(3); a.(4)] []), "")
+
 let show_opt_n = function None -> "None" | Some x -> "Some(" ^ decimal_of_n x ^ ")"
 let run_defaults () =
   (Printf.sprintf "rl=%s;hl=%s;mm=%s" (show_opt_n default_cfg.rl) (show_opt_n default_cfg.hl)
@@ -343,6 +394,7 @@ let run_case kind (a : string array) =
   | "genreq" -> run_genreq a | "genresp" -> run_genresp a
   | "rtreq" -> run_rtreq a | "rtresp" -> run_rtresp a
   | "pipereq" -> run_pipereq a | "piperesp" -> run_piperesp a
+  | "reuseresp" -> run_reuse_resp a | "reusereq" -> run_reuse_req a
   | "defaults" -> run_defaults ()
   | _ -> ("unknown-kind", "")
 
